@@ -316,7 +316,11 @@ let oracle (f : string list) (impl : string) : string =
   | id :: _ when starts_with "C09" id -> oracle_c09 impl
   | _ ->
   match expected_field f with
-  | Some exp -> oracle_expected exp impl
+  | Some exp -> (
+      let r = oracle_expected exp impl in
+      match f with
+      | id :: "render" :: src :: _ when starts_with "C05" id -> in_dom (unhex src) r
+      | _ -> r)
   | None ->
   match f with
   | id :: "lex" :: src :: _ when starts_with "C19" id -> in_dom (unhex src) (oracle_c19 (unhex src) impl)
